@@ -352,3 +352,8 @@ def run(ctx: C.Ctx):
     ctx.assumptions += ["CPython raises the audit events open/exec/import/os.*/subprocess.*/socket.* for the corresponding accesses",
                         "the recording wrappers see every call the evaluator makes through its module-level names (op, _SAFE_CASTS, max, min, abs)"]
     return ctx
+
+
+def replay(data):
+    from harness.props.c03_replay import replay_c11
+    return replay_c11(data)
